@@ -1371,6 +1371,9 @@ class SingleDot(DotProduct):
             Y = Y[:, self.index : self.index + 1]
         return super(SingleDot, self).__call__(X, Y, eval_gradient)
 
+    def diag(self, X):
+        return super(SingleDot, self).diag(X[:, self.index : self.index + 1])
+
 
 class DensityNoise(StationaryKernelMixin, GenericKernelMixin, Kernel):
     def __init__(self, index=0):
